@@ -797,7 +797,23 @@ fn judge(s: &Scenario, st: ExecState, panic_msg: Option<String>, drainer_exists:
       let blocked_recv = l.recvs.iter().filter(|r| r.2 == 0).count();
       let blocked_send = l.sends.values().filter(|e| e.2 == 0).count();
       let what = if blocked_recv > 0 && blocked_send > 0 { "senders_and_receivers" } else if blocked_recv > 0 { "receiver" } else { "sender" };
-      out.failure = Some(Failure::new("C05", sig(s, "deadlock", what), format!("schedule seed {seed}: every unfinished thread is blocked ({blocked_send} send(s) / {blocked_recv} receive(s) in progress; producers gone: {:?}, consumers gone: {:?}) — {}", l.producer_gone.keys().collect::<Vec<_>>(), l.consumer_gone.keys().collect::<Vec<_>>(), msg.chars().take(160).collect::<String>())));
+      // A deadlock is always a C05 matter.  It is *also* a violation of the disconnect
+      // protocol (C04) when the blocked side's peers are all gone — "after the last receiver
+      // is dropped or closed every send form fails with Closed" / receivers "observe
+      // Disconnected" — and of C07 on the broadcast channel ("closing or dropping a receiver
+      // ... unblocks a parked sender").  It is reported under the property being checked.
+      let all_consumers_gone = l.consumer_gone.len() >= s.consumers.len();
+      let all_producers_gone = l.producer_gone.len() >= s.producers.len();
+      let disconnect_related = (blocked_send > 0 && all_consumers_gone) || (blocked_recv > 0 && all_producers_gone);
+      let cur = crate::current_property();
+      let prop = if cur == "C04" && disconnect_related {
+        "C04"
+      } else if cur == "C07" && s.flavour == Flavour::Broadcast {
+        "C07"
+      } else {
+        "C05"
+      };
+      out.failure = Some(Failure::new(prop, sig(s, "deadlock", what), format!("schedule seed {seed}: every unfinished thread is blocked ({blocked_send} send(s) / {blocked_recv} receive(s) in progress; producers gone: {:?}, consumers gone: {:?}) — {}", l.producer_gone.keys().collect::<Vec<_>>(), l.consumer_gone.keys().collect::<Vec<_>>(), msg.chars().take(160).collect::<String>())));
     } else if msg.starts_with("exceeded max_steps") {
       out.inconclusive = true;
     } else {
